@@ -399,7 +399,7 @@ def build_classes(schema, module=None, hybrids=None):
             decl = {"_xofields": data}
             if ty.get("rename"):
                 decl["_rename"] = dict(ty["rename"])
-            H = type(ty["hname"], (xo.HybridClass,), decl)
+            H = type(ty["hname"], (hybrids[ty["hbase"]],) if ty.get("hbase") is not None else (xo.HybridClass,), decl)
             cls = H._XoStruct
             assert cls.__name__ == ty["name"], (cls.__name__, ty["name"])
             hybrids[len(out)] = H
